@@ -341,7 +341,9 @@ private:
           }
 
           template <typename Error>
-          void set_error(Error&& error) && noexcept {
+          void set_error(Error error) && noexcept {
+            // The error is taken by value: it may refer to state owned by the
+            // cleanup operation, which is destroyed before it is forwarded.
             auto& op = op_;
             op.cleanupOp_.destruct();
 
@@ -351,7 +353,7 @@ private:
               unifex::set_error(
                   std::move(op.receiver_), std::move(op.stream_.nextError_));
             } else {
-              unifex::set_error(std::move(op.receiver_), (Error&&)error);
+              unifex::set_error(std::move(op.receiver_), std::move(error));
             }
           }
         };
